@@ -61,6 +61,7 @@ REGION = os.environ.get('VH_REGION', 'main')
 MAXC = int(os.environ.get('VH_MAXC', '2'))      # largest transit / peripheral count
 NST = int(os.environ.get('VH_NST', '2'))        # statements per transit / peripheral operand (1..NST)
 SWAP = os.environ.get('VH_SWAP', '0') == '1'   # the multi-statement operand is the right-hand one
+SIZE = os.environ.get('VH_SIZE', 'quick')      # quick: smaller covariate / pair tables (see checks/C18.py bounds)
 
 # ---- documented option lists (docs/mfl.rst, grammar.py); independent of the *_WILDCARD tuples of pharmpy ------------
 MODES = dict(absorption=('FO', 'ZO', 'SEQ-ZO-FO', 'INST'), elimination=('FO', 'ZO', 'MM', 'MIX-FO-MM'),
@@ -100,8 +101,8 @@ PMODE_T = [_names(s) for s in _nes(PMODES)] + [Wildcard()]
 IEM_T = [_names(s) for s in _nes(IE_MODES)] + [Wildcard()]
 IEP_T = [_names(s) for s in _nes(IE_PROD)] + [Wildcard()]
 COVP_T = _nes(('CL', 'V'))
-COVC_T = _nes(('WGT', 'AGE'))
-COVF_T = _nes(('EXP', 'LIN')) + [Wildcard()]
+COVC_T = _nes(('WGT', 'AGE')) if SIZE == 'thorough' else [('WGT',), ('WGT', 'AGE')]
+COVF_T = (_nes(('EXP', 'LIN')) if SIZE == 'thorough' else [('EXP',), ('EXP', 'LIN')]) + [Wildcard()]
 COUNT_T = _nes(tuple(range(MAXC + 1)))     # non-empty count lists over 0..MAXC, ascending
 NK = len(COUNT_T)
 NM = len(MODE_T[CAT]) if CAT in MODE_T else 0
@@ -369,7 +370,7 @@ def _region_periph(op, m1, k2, m2, n1, a, b):
     if op == 'eq' and k2 >= 0:
         A, B = expand(a), expand(b)
         if all(A[k] == B[k] for k in ('peripherals:DRUG', 'peripherals:MET')):
-            return 'eq_periph_shape'  # tuple-of-statements comparison depends on how the statements are split
+            return 'eq_statement_shape'  # tuple-of-statements comparison depends on how the statements are split
     if op == 'contain' and (m1 != 0 or n1 != 0 or (k2 >= 0 and m2 != 0)):
         return 'outside'             # contain_subset looks at DRUG peripherals only (tool modelsearch): not claimed
     return 'main'
@@ -429,7 +430,7 @@ def _region_cov(op, a, b):
 def _body_cov(s1, s2, t1):
     st = (_mk_cov(s1),) + ((_mk_cov(s2),) if s2 >= 0 else ())
     a = ModelFeatures.create(covariate=st)
-    b = ModelFeatures.create(covariate=(_mk_cov(t1),))
+    b = ModelFeatures.create(covariate=(_mk_cov(t1),))     # any operator: '+' effects never match '*' effects
     if SWAP:
         a, b = b, a
     ops = _ops(lambda op: _region_cov(op, a, b), skip=('contain', 'lnt'))
@@ -459,14 +460,17 @@ def alg_cov__twin(s1: int, s2: int, t1: int) -> bool:
 
 
 # ---- family: 2-category product (absorption x peripherals/DRUG, elimination on one side only) --------------------------
-NA = len(MODE_T['absorption']) - 1      # no wildcard here (wildcards: family modes)
-NE = len(MODE_T['elimination']) - 1
+# no wildcard here (wildcards: family modes); quick: options FO/ZO/INST x FO/ZO
+PAIR_A = [Absorption(_names(t)) for t in _nes(MODES['absorption'] if SIZE == 'thorough' else ('FO', 'ZO', 'INST'))]
+PAIR_E = [Elimination(_names(t)) for t in _nes(MODES['elimination'] if SIZE == 'thorough' else ('FO', 'ZO'))]
+NA = len(PAIR_A)
+NE = len(PAIR_E)
 
 
 def _mk_pair(x, k, e):
-    kw = dict(absorption=MODE_T['absorption'][x], peripherals=(Peripherals(COUNT_T[k]),))
+    kw = dict(absorption=PAIR_A[x], peripherals=(Peripherals(COUNT_T[k]),))
     if e >= 0:
-        kw['elimination'] = MODE_T['elimination'][e]
+        kw['elimination'] = PAIR_E[e]
     return ModelFeatures.create(**kw)
 
 
@@ -502,8 +506,23 @@ def _mk_ie(m1, p1, m2, p2):
     return ModelFeatures.create(indirect_effect=st)
 
 
+def _region_indirect(op, a, b):
+    if op == 'eq' and expand(a)['indirect_effect'] == expand(b)['indirect_effect']:
+        if [(i.modes, i.production) for i in a.indirect_effect] != [(i.modes, i.production) for i in b.indirect_effect]:
+            return 'eq_statement_shape'   # statement-tuple comparison: `*` vs the explicit full list, 2 statements vs 1
+    if op == 'lnt' and not (expand(a)['indirect_effect'] & expand(b)['indirect_effect']):
+        return 'lnt_indirect_keyerror'    # _lnt_indirect_effect looks up a Name object where the key holds its string
+    return 'main'
+
+
 def _body_indirect(m1, p1, m2, p2, n1, q1):
-    return _check(_ops(lambda op: 'main', skip=('contain',)), _mk_ie(m1, p1, m2, p2), _mk_ie(n1, q1, -1, 0))
+    a, b = _mk_ie(m1, p1, m2, p2), _mk_ie(n1, q1, -1, 0)
+    if SWAP:
+        a, b = b, a
+    ops = _ops(lambda op: _region_indirect(op, a, b), skip=('contain',))
+    if not ops:
+        return None
+    return _check(ops, a, b)
 
 
 def alg_indirect(m1: int, p1: int, m2: int, p2: int, n1: int, q1: int) -> bool:
